@@ -610,5 +610,5 @@ func TestVerifC15(t *testing.T) {
 			c15W.l.close()
 		}
 	}()
-	vfutil.Run(t, vfutil.Spec[c15Case]{ID: "C15", Gen: genC15, Run: runC15})
+	vfutil.Run(t, vfutil.Spec[c15Case]{ID: "C15", Gen: genC15, Run: runC15, Journal: true})
 }
